@@ -1023,7 +1023,7 @@ def bl4(ctx, R):
     # 4: TimeStamp.from_bytes: structured dtype per byte order
     fi = prog.func("types.TimeStamp.from_bytes")
     EP2 = ("param", [p for p in fi.params if "endian" in p][0])
-    v = Sym(prog, fi, fi.cls, inline=False).function_value()
+    v = Sym(prog, fi, fi.cls).function_value()
     sc = _endian_scenarios(v, EP2)
     if sc[0] == sc[1]:
         raise AnchorMissing("types.TimeStamp.from_bytes: branch on the byte order")
